@@ -85,7 +85,7 @@ def match_known(known, v):
 CHUNK = int(os.environ.get('VERIF_CHUNK', '20'))
 
 
-def run_jobs(jobs, njobs, progress=None, wall=None):
+def run_jobs(jobs, njobs, progress=None, wall=None, stop_on_prop=None):
     """jobs: list of dicts with 'hclass'. Returns list of results (same order).
     Jobs of one (hclass, prop, batch) are sent CHUNK at a time: one fork per chunk."""
     nserv = max(njobs, HCLASSES)
@@ -121,6 +121,8 @@ def run_jobs(jobs, njobs, progress=None, wall=None):
                 continue
             for i, r in zip(idxs, rr['results']):
                 results[i] = r
+                if stop_on_prop and any(v['property'] == stop_on_prop for v in r.get('violations') or []):
+                    stop.set()  # sensitivity self-test: the first violation is all that is asked for
 
     threads = [threading.Thread(target=worker, args=(s,), daemon=True) for s in servers]
     for t in threads:
@@ -151,7 +153,7 @@ def check(prop, tier, seed, njobs):
             jobs.append(dict(id=len(jobs), prop=prop, batch=b, seed=derive_seed(seed, prop, b, i), hclass=i % HCLASSES,
                              chunk=batch.get('chunk')))
     wall = P.get('wall', {}).get(tier, 120 if tier == 'quick' else 1500)
-    results, servers = run_jobs(jobs, njobs, wall=wall)
+    results, servers = run_jobs(jobs, njobs, wall=wall, stop_on_prop=prop if os.environ.get('VERIF_STOP_FIRST') else None)
     try:
         return finish(prop, tier, seed, P, jobs, results, servers, t0)
     finally:
@@ -209,6 +211,9 @@ def finish(prop, tier, seed, P, jobs, results, servers, t0):
 
     def do_shrink(key, serv):
         j, r, v = groups[key]['first']
+        if os.environ.get('VERIF_NO_SHRINK'):
+            shr[key] = {}
+            return
         shr[key] = serv.call(dict(id='shrink', shrink=dict(prop=prop, batch=j['batch'], choices=r['choices'],
                                                            property=prop, rule=key[0], signature=key[1])))
 
